@@ -73,7 +73,7 @@ class Runner:
         self.fp = I.ParFp() if have_fp else None
         self.trav = I.ParTrav() if have_trav else None
         self.stats = {"modules": 0, "frontend_rejected": 0, "accepted": 0, "rejected_par": 0, "other_error": 0,
-                      "accepted_with_par": 0, "par_loops_checked": 0, "positions": {}, "inputs_run": 0,
+                      "accepted_with_par": 0, "par_loops_checked": 0, "par_loops_alloc_free": 0, "positions": {}, "inputs_run": 0,
                       "inputs_valid": 0, "inputs_invalid": 0, "inputs_fail": 0, "nontrivial_runs": 0,
                       "races_in_accepted": 0, "order_mismatch": 0, "order_runs": 0,
                       "rejected_racy": 0, "rejected_race_free": 0, "rejected_no_nontrivial_input": 0,
@@ -188,6 +188,7 @@ class Runner:
                     st["positions"][pos] = st["positions"].get(pos, 0) + 1
                     if id(s) in checked:
                         st["par_loops_checked"] += 1
+                        st["par_loops_alloc_free"] += 1 if I.alloc_free(s.body) else 0
                     else:
                         missing_loops.append({"proc": q.name, "loop": str(s.iter), "position": pos})
             ck.case("coverage", (tag, src), nontrivial=npar > 0, tag="sub" if len(tree) > 1 else "single")
@@ -348,7 +349,8 @@ def run(ck):
                              % st["nontrivial_runs"])
 
     ck.cov["c09_statistics"] = st
-    ck.cov["rule"] = ("proof: the 12 theorems of coq/Par/Props_C09.v over the translated traversal and predicate algebra; "
+    ck.cov["rule"] = ("proof: the theorems of coq/Par/Props_C09*.v (instrumented semantics, footprint soundness, permutation semantics; "
+                      "translated traversal; translated predicate algebra); "
                       "correspondence: observed Check_ParallelizeLoop invocations / ParallelAnalysis.run outcomes == "
                       "translated traversal, coverage of every procedure of the call tree and every par loop when "
                       "compilation succeeds, canonical verdicts, exactness on the systematic family; search: every "
@@ -366,13 +368,15 @@ def run(ck):
         "monkey-patched observation of exo.backend.parallel_analysis.{Check_ParallelizeLoop, ParallelAnalysis.run}",
     ]
     ck.assumptions += [
-        "C09_perm: each iteration, as a transformer of the memory of cells, RESPECTS the footprint it reports "
-        "(ParSem.respects: frame + determinacy on the cells read) — stated as a hypothesis, not proved for "
-        "Core.Sem.exec; validated by execution: %d re-runs of race-free accepted procedures with reversed/rotated "
-        "iteration order, %d mismatches" % (st["order_runs"], st["order_mismatch"]),
-        "C09_perm models iterations as atomic (any PERMUTATION of whole iterations); finer interleavings are not "
-        "modelled.  Allocation inside iterations renames fresh blocks; the abstract theorem is about the memory of "
-        "cells that exist before the loop",
+        "C09_perm_core (no hypothesis left about the iterations) covers parallel loops whose body, callees included, "
+        "does not allocate.  For bodies that allocate, the fresh block names depend on the execution order, so the "
+        "result is the same only up to renaming of blocks allocated inside the loop; that case rests on the abstract "
+        "C09_perm with the hypothesis ParSem.respects, validated by execution: %d re-runs of race-free accepted "
+        "procedures with reversed/rotated iteration order, %d mismatches; %d of the %d par loops of accepted "
+        "procedures have allocation-free bodies" % (st["order_runs"], st["order_mismatch"],
+                                                     st["par_loops_alloc_free"], st["par_loops_checked"]),
+        "iterations are atomic in the parallel semantics (any PERMUTATION of whole iterations); finer interleavings "
+        "are not modelled",
         "the loop bounds are evaluated once (Core.Sem); `races` additionally reports an iteration that modifies a "
         "cell read by the bounds (C's re-evaluation); loops whose bounds read a configuration field do not compile "
         "at all on the current tree (range analysis asserts)",
